@@ -159,7 +159,13 @@ func genKOp0(r *rand.Rand) *KOp {
 	gens := []gen{
 		{2, func() *KOp { return &KOp{Kind: pick(r, []string{"GetRaw", "Get", "Exists", "GetExpiry"})} }},
 		{2, func() *KOp { return &KOp{Kind: pick(r, []string{"GetWithXattrs", "GetXattrs"}), Names: genNames(r)} }},
-		{1, func() *KOp { return &KOp{Kind: "GetSubDocRaw", Path: pick(r, subdocPaths)} }},
+		{3, func() *KOp {
+			p := pick(r, subdocPaths)
+			if r.Intn(2) == 0 {
+				p = pick(r, []string{"a", "a", "b", "s", "n"}) // the properties most of the family's bodies have
+			}
+			return &KOp{Kind: "GetSubDocRaw", Path: p}
+		}},
 		{6, func() *KOp { return &KOp{Kind: "Add", Exp: genExp(r), Val: orNil(sp(pick(r, jsonBodies)))} }},
 		{3, func() *KOp { return &KOp{Kind: "AddRaw", Exp: genExp(r), Val: orNil(sp(body()))} }},
 		{5, func() *KOp {
@@ -345,6 +351,14 @@ func genKv(r *rand.Rand, tier string) kvInput {
 			in.OnDisk = true
 		}
 	}
+	// one case in four gets a second interaction (none that needs a configuration of its own)
+	motif2At, motif2 := -1, -1
+	if r.Intn(4) == 0 {
+		motif2At, motif2 = r.Intn(n), r.Intn(numMotifs)
+		if motif2 == motifDDocSwap || motif2 == motifDropNewest {
+			motif2 = motifSubdocShapes
+		}
+	}
 	// one case in three is about views: a design document from the start, a view query every fourth step
 	viewy := r.Intn(3) == 0
 	viewColl := "_default._default"
@@ -379,6 +393,9 @@ func genKv(r *rand.Rand, tier string) kvInput {
 		}
 		if i == motifAt {
 			genMotif(r, motif, &in, exists, hot, next, func() uint64 { return clock })
+		}
+		if i == motif2At {
+			genMotif(r, motif2, &in, exists, hot, next, func() uint64 { return clock })
 		}
 		var live []string
 		for _, cn := range kvColls {
@@ -930,6 +947,7 @@ func genMotif(r *rand.Rand, m int, in *kvInput, exists map[string]bool, hot []st
 			path := pick(r, []string{"n.x", "n", "s.y", "a.z", "a.z.w", "b.c", "b.c.d", "b.c.d.e", "a.", ".a", "b..c", "q", "new.deep", "a"})
 			if j < len(own) {
 				path = sh.paths[own[j]]
+				kv(&KOp{Kind: "GetSubDocRaw", Path: path}) // what is there before it is written
 			}
 			switch r.Intn(4) {
 			case 0:
